@@ -126,6 +126,7 @@ def run_c16(ctx):
             ctx.nontriv("extra:%s:%s" % (src, why))
     whole_config_grid(ctx, workdir)
     text_level_loaders(ctx, workdir)
+    effective_batch_size(ctx)
     running_server_uses_written_values(ctx, workdir)
     import shutil
     subprocess.run(["chmod", "-R", "u+w", workdir])
@@ -308,6 +309,38 @@ def text_level_loaders(ctx, workdir):
             if not got.startswith("OK") or text.count("\n") > 1:
                 ctx.nontriv("filetext:" + rt.fnv64(text.encode()))
     ctx.sample({"yaml": files[3], "impl": file_out[3][-1][:200], "model": model[3][:200]})
+
+
+def effective_batch_size(ctx):
+    """the batch_size the server RUNS with is the one written: an in-process server is given a backlog of
+    2b + 1 classic requests before ONE process_events call; grouping the replies by their signed response
+    (one SREP per batch) must give batches of b, b, 1 (b, 1 for the large ones) for every b, powers of two or not"""
+    from props import server as srvmod
+    r = ctx.rng
+    bs = [1, 2, 3, 5, 6, 7, 12, 33, 63]
+    sessions = []
+    for b in bs:
+        # (the backlog must fit the socket's receive buffer: 2b + 1 datagrams up to b = 12, b + 1 above)
+        nreq = 2 * b + 1 if b <= 12 else b + 1
+        reqs = [rt.mk_classic(bytes(r.getrandbits(8) for _ in range(64)), 1024) for _ in range(nreq)]
+        sessions.append(["serve new %d 0 3 0 %s" % (b, SEED), "serve run 4 " + ";".join("%d:%s" % (i % 4, rt.hx(d)) for i, d in enumerate(reqs)), "serve drop"])
+    outs = vlib.run_sessions(vlib.HARNESS, sessions, "c16b")
+    for b, sess, out in zip(bs, sessions, outs):
+        ctx.evaluations += 1
+        rep = {"cmd": "serve", "lines": sess, "batch_size": b, "impl": [o[:200] for o in out]}
+        pr = srvmod.parse_run(out[1])
+        import collections
+        cnt = collections.Counter()
+        for _, reply in pr["replies"]:
+            f = srvmod.fields_of(reply, "Google")
+            cnt[dict(f).get("SREP") if f else None] += 1
+        sizes = sorted(cnt.values(), reverse=True)
+        want = [1, 1, 1] if b == 1 else ([b, b, 1] if b <= 12 else [b, 1])
+        if sizes != want:
+            ctx.violation("property", "batch_size %d is written but a backlog of %d requests was answered in batches of %s" % (b, sum(want), sizes), rep)
+        else:
+            ctx.traces_validated += 1
+            ctx.nontriv("batch:%d" % b)
 
 
 def running_server_uses_written_values(ctx, workdir):
